@@ -2,6 +2,7 @@
 package recovery
 
 import (
+	stderrors "errors"
 	"fmt"
 	"math"
 	"os"
@@ -146,7 +147,9 @@ func (dr *DatabaseRecovery) loadWithRetry(primaryPath, personalPath string) (*da
 // shouldRetry determines if an error is worth retrying
 func (dr *DatabaseRecovery) shouldRetry(err error) bool {
 	// Don't retry for file not found or permission errors
-	if os.IsNotExist(err) || os.IsPermission(err) {
+	// The loader wraps the underlying error, so look through the chain
+	// (os.IsNotExist / os.IsPermission do not unwrap).
+	if stderrors.Is(err, os.ErrNotExist) || stderrors.Is(err, os.ErrPermission) {
 		return false
 	}
 
